@@ -319,6 +319,7 @@ func c10InlineHeavy(r *Rng) *c10Case {
 func c10Gen(g *Gen) {
 	r := g.R
 	c10GenSpec(g) // kinds 1 and 2: the specification decoder and unescaper against independent Go code
+	c10GenMem(g)  // kind 3: one rewriter chain instance over records aliasing a recycled buffer
 
 	// ---- 1. fixed probes ----
 	{
@@ -959,5 +960,75 @@ func c10Gen(g *Gen) {
 			rw: []c10Rw{{field: "msg", chain: []c10Step{{code: c10Unescape}}}}}
 		c10Fit(cc, 12)
 		c10Emit(g, "big-unescape-shrinks", cc)
+	}
+	// ---- histories over one reused backing buffer (follow-up wave-4 seed 8) ----
+	// The fields of all records of a case alias one arena (c10Run): records of the same layout (equal lengths, other
+	// content) put another value on the very bytes the previous record's value occupied.  Every rewriter kind, the
+	// inlined field visible / hidden / in the environment, 1-2 inline steps, 2-6 records, 1-2 outputs.
+	{
+		// minimal member: 'OrderService' then 'AuditService' inlined into the message
+		cc := &c10Case{nout: 1, nrec: 3, schema: []string{"host", "class", "msg"}, env: []string{"host"},
+			rw: []c10Rw{{field: "msg", chain: []c10Step{{code: c10Inline, field: "class"}, {code: c10Copy}}}},
+			recs: []c10Rec{
+				{unix: 1700000000, nsec: 1, fields: []string{"h1", "OrderService", "started"}},
+				{unix: 1700000001, nsec: 2, fields: []string{"h1", "AuditService", "started"}}}}
+		c10Fit(cc, 20)
+		c10Emit(g, "alias-history-probe", cc)
+	}
+	for i := 0; i < g.Pick(250, 8000); i++ {
+		ns := r.PickInt([]int{3, 3, 4, 5, 8})
+		cc := &c10Case{nout: 1, nrec: ns, schema: c10Schema(r, ns)}
+		if r.Chance(1, 6) {
+			cc.nout = 2
+		}
+		cc.env = []string{cc.schema[0]}
+		src := cc.schema[1]
+		switch r.Intn(4) {
+		case 0:
+			cc.hidden = []string{src}
+		case 1:
+			cc.env = append(cc.env, src)
+		}
+		nrw := 1 + r.Intn(2)
+		for k := 0; k < nrw && 2+k < ns; k++ {
+			ch := []c10Step{{code: c10Inline, field: src}}
+			if r.Chance(1, 3) {
+				ch = append(ch, c10Step{code: c10Inline, field: cc.schema[r.Intn(ns)]})
+			}
+			ch = append(ch, c10Step{code: r.PickInt([]int{c10Unescape, c10Copy})})
+			cc.rw = append(cc.rw, c10Rw{field: cc.schema[2+k], chain: ch})
+		}
+		lens := []int{1, 2, 5, 12, 16, 33}
+		first := c10RandRec(r, ns, lens)
+		if first.fields[1] == "" {
+			first.fields[1] = c10Value(r, 1+r.Intn(12))
+		}
+		cc.recs = []c10Rec{first}
+		n := 2 + r.Intn(5)
+		for len(cc.recs) < n {
+			prev := cc.recs[len(cc.recs)-1]
+			var rc c10Rec
+			switch r.Intn(5) {
+			case 0:
+				rc = c10Mutate(r, prev, lens)
+			case 1: // only the inlined field changes, same length
+				rc = c10Rec{unix: prev.unix + 1, nsec: prev.nsec, unescaped: prev.unescaped, fields: append([]string{}, prev.fields...)}
+				rc.fields[1] = c10Value(r, len(prev.fields[1]))
+			case 2: // one byte of the inlined field changes
+				rc = c10Rec{unix: prev.unix, nsec: prev.nsec, unescaped: prev.unescaped, fields: append([]string{}, prev.fields...)}
+				if b := []byte(prev.fields[1]); len(b) > 0 {
+					b[r.Intn(len(b))] ^= byte(1 + r.Intn(3))
+					rc.fields[1] = string(b)
+				}
+			default: // same lengths, other content everywhere
+				rc = c10Rec{unix: prev.unix, nsec: (prev.nsec + 1) % 1000000000, unescaped: prev.unescaped, fields: make([]string, ns)}
+				for j, v := range prev.fields {
+					rc.fields[j] = c10Value(r, len(v))
+				}
+			}
+			cc.recs = append(cc.recs, rc)
+		}
+		c10Fit(cc, r.Intn(40))
+		c10Emit(g, "alias-history", cc)
 	}
 }
